@@ -786,7 +786,12 @@ async fn extern_module(
     let vm = db.thread();
 
     let module = (loader.load_fn)(vm)?;
-    let mut value = module.value.clone();
+    // The module is created by whichever thread imports it first but is visible to every thread
+    // so, as for modules written in gluon, the value must live in the global heap
+    let mut gc = vm.global_env().gc.lock().unwrap();
+    let mut cloner = vm::internal::Cloner::new(vm, &mut gc);
+    let value = cloner.deep_clone(module.value.get_value())?;
+    let mut value: RootedValue<RootedThread> = vm.root_value(value);
     unsafe { value.vm_mut().unroot() }; // FIXME
 
     Ok(UnrootedGlobal {
